@@ -70,11 +70,13 @@ theorem squeeze_elems (a r : Arr α) (axes : Option (List Int)) (h : a.squeeze a
   · simp only at h
     split at h
     · cases h
-    · obtain ⟨dims, _, h⟩ := Res.bind_eq_ok h
-      split at h
+    · split at h
       · cases h
-      · obtain ⟨sh, _, h⟩ := Res.bind_eq_ok h
-        exact Arr.reshape_elems h
+      · obtain ⟨dims, _, h⟩ := Res.bind_eq_ok h
+        split at h
+        · cases h
+        · obtain ⟨sh, _, h⟩ := Res.bind_eq_ok h
+          exact Arr.reshape_elems h
   · exact Arr.reshape_elems h
 
 /-- **atleast(n)** on a well-formed array, `n ≤ 3`: succeeds, elements kept, well formed, and (for rank ≥ 1) the rank
@@ -197,11 +199,13 @@ theorem step_wf (a r : Arr α) (s : Step) (hwf : a.WF) (h : s.apply a = .ok r) :
     split at h
     · split at h
       · cases h
-      · obtain ⟨dims, _, h⟩ := Res.bind_eq_ok h
-        split at h
+      · split at h
         · cases h
-        · obtain ⟨sh, _, h⟩ := Res.bind_eq_ok h
-          exact Arr.reshape_wf h
+        · obtain ⟨dims, _, h⟩ := Res.bind_eq_ok h
+          split at h
+          · cases h
+          · obtain ⟨sh, _, h⟩ := Res.bind_eq_ok h
+            exact Arr.reshape_wf h
     · exact Arr.reshape_wf h
 
 /-- chains keep the well-formedness invariant `len = ∏ shape` -/
@@ -304,14 +308,26 @@ theorem squeeze_none_shape (a : Arr α) (hwf : a.WF) :
   unfold Arr.squeeze
   exact Arr.reshape_of_prod hwf (prod_filter_ne_one _)
 
-/-- **removing a named axis is allowed only when its length is one** -/
+/-- **removing a named axis is allowed only when its length is one** (axes in range and named once each — the two
+earlier checks of the code; see `squeeze_out_of_range`, `squeeze_repeated_axis`, and `squeeze_nonunit_is_error` for
+the unconditional form) -/
 theorem squeeze_rejects_nonunit (a : Arr α) (axes : List Int)
     (hin : ∀ i ∈ axes, normalizeAxis a.ndim i < a.ndim)
+    (hnd : (axes.map (normalizeAxis a.ndim)).Nodup)
     (h : ∃ i ∈ axes, a.shape[normalizeAxis a.ndim i]? ≠ some 1) :
     a.squeeze (some axes) = .err .SqueezeShapeOfAxisMustBeOne := by
   apply Arr.squeeze_some_nonunit
   · intro x hx; obtain ⟨i, hi, rfl⟩ := List.mem_map.1 hx; exact hin i hi
+  · exact hnd
   · obtain ⟨i, hi, hne⟩ := h; exact ⟨_, List.mem_map.2 ⟨i, hi, rfl⟩, hne⟩
+
+/-- an axis named twice (also through two spellings, e.g. `0` and `-ndim`) is the error `MustBeUnique`, never a panic -/
+theorem squeeze_repeated_axis (a : Arr α) (axes : List Int)
+    (hin : ∀ i ∈ axes, normalizeAxis a.ndim i < a.ndim)
+    (hnd : ¬ (axes.map (normalizeAxis a.ndim)).Nodup) :
+    a.squeeze (some axes) = .err .MustBeUnique := by
+  apply Arr.squeeze_some_repeated _ _ _ hnd
+  intro x hx; obtain ⟨i, hi, rfl⟩ := List.mem_map.1 hx; exact hin i hi
 
 /-- a named axis outside the rank is an error, never a panic -/
 theorem squeeze_out_of_range (a : Arr α) (axes : List Int) (h : ∃ i ∈ axes, a.ndim ≤ normalizeAxis a.ndim i) :
@@ -324,10 +340,14 @@ theorem squeeze_nonunit_is_error (a : Arr α) (axes : List Int)
     (h : ∃ i ∈ axes, a.shape[normalizeAxis a.ndim i]? ≠ some 1) : ∃ e, a.squeeze (some axes) = .err e := by
   by_cases hout : ∃ i ∈ axes, a.ndim ≤ normalizeAxis a.ndim i
   · exact ⟨_, squeeze_out_of_range a axes hout⟩
-  · refine ⟨_, squeeze_rejects_nonunit a axes (fun i hi => ?_) h⟩
-    rcases Nat.lt_or_ge (normalizeAxis a.ndim i) a.ndim with h | h
-    · exact h
-    · exact absurd ⟨i, hi, h⟩ hout
+  · have hin : ∀ i ∈ axes, normalizeAxis a.ndim i < a.ndim := by
+      intro i hi
+      rcases Nat.lt_or_ge (normalizeAxis a.ndim i) a.ndim with h | h
+      · exact h
+      · exact absurd ⟨i, hi, h⟩ hout
+    by_cases hnd : (axes.map (normalizeAxis a.ndim)).Nodup
+    · exact ⟨_, squeeze_rejects_nonunit a axes hin hnd h⟩
+    · exact ⟨_, squeeze_repeated_axis a axes hin hnd⟩
 
 /-- **squeeze(Some(axes))**, distinct axes all of length one: succeeds, elements kept, and the shape is the old shape
 without the entries at the named indices (all ranks, any number of axes, any order, negative spellings) -/
@@ -348,6 +368,29 @@ theorem squeeze_single (a : Arr α) (i : Int) (hwf : a.WF) (h1 : a.shape[normali
     a.squeeze (some [i]) = .ok ⟨a.elems, a.shape.eraseIdx (normalizeAxis a.ndim i)⟩ := by
   rw [Arr.squeeze_some_ok a [i] hwf (by simp) (by simpa using h1)]
   simp [sortNat, eraseAll]
+
+/-- `squeeze` on a well-formed array never panics (any axis list, repeated or out of range included) -/
+theorem squeeze_total (a : Arr α) (axes : Option (List Int)) (hwf : a.WF) : a.squeeze axes ≠ .panic := by
+  cases axes with
+  | none => rw [squeeze_none_shape a hwf]; exact fun h => by cases h
+  | some axes =>
+    by_cases hout : ∃ i ∈ axes, a.ndim ≤ normalizeAxis a.ndim i
+    · rw [squeeze_out_of_range a axes hout]; exact fun h => by cases h
+    · have hin : ∀ i ∈ axes, normalizeAxis a.ndim i < a.ndim := by
+        intro i hi
+        rcases Nat.lt_or_ge (normalizeAxis a.ndim i) a.ndim with h | h
+        · exact h
+        · exact absurd ⟨i, hi, h⟩ hout
+      by_cases hnd : (axes.map (normalizeAxis a.ndim)).Nodup
+      · by_cases h1 : ∀ i ∈ axes, a.shape[normalizeAxis a.ndim i]? = some 1
+        · rw [squeeze_named_ok a axes hwf hnd h1]; exact fun h => by cases h
+        · have h1' : ∃ i ∈ axes, a.shape[normalizeAxis a.ndim i]? ≠ some 1 := by
+            apply Classical.byContradiction; intro hc
+            apply h1; intro i hi
+            apply Classical.byContradiction; intro hne
+            exact hc ⟨i, hi, hne⟩
+          rw [squeeze_rejects_nonunit a axes hin hnd h1']; exact fun h => by cases h
+      · rw [squeeze_repeated_axis a axes hin hnd]; exact fun h => by cases h
 
 /-! ## 6. resize, cycle_take -/
 
@@ -421,7 +464,10 @@ example : ∃ r, (⟨[7, 8], [2]⟩ : Arr Nat).expandDims [0, -1] = .ok r ∧ r.
 example : (⟨[1, 2, 3], [1, 3, 1]⟩ : Arr Nat).squeeze (some [-1, 0]) = .ok ⟨[1, 2, 3], [3]⟩ :=
   squeeze_named_ok (⟨[1, 2, 3], [1, 3, 1]⟩ : Arr Nat) [-1, 0] (by decide) (by decide) (by decide)
 example : (⟨[1, 2, 3], [1, 3, 1]⟩ : Arr Nat).squeeze (some [1]) = .err .SqueezeShapeOfAxisMustBeOne :=
-  squeeze_rejects_nonunit _ [1] (by decide) (by decide)
+  squeeze_rejects_nonunit _ [1] (by decide) (by decide) (by decide)
+/-- one axis under two spellings -/
+example : (⟨[5], [1]⟩ : Arr Nat).squeeze (some [0, -1]) = .err .MustBeUnique :=
+  squeeze_repeated_axis _ [0, -1] (by decide) (by decide)
 example : (⟨[1, 2, 3], [1, 3, 1]⟩ : Arr Nat).squeeze (some [3]) = .err .AxisOutOfBounds :=
   squeeze_out_of_range _ [3] (by decide)
 example : (⟨[7, 8], [2]⟩ : Arr Nat).expandDims [3] = .err .AxisOutOfBounds :=
